@@ -971,6 +971,15 @@ class AstEval:
                 raise SyntaxError(f"{val.name()} statement outside loop")
         return val
 
+    def bind_name(self, var_name, val):
+        """Bind a name in the current scope, through its closure cell or global declaration if it has one."""
+        if self.curr_func and var_name in self.curr_func.global_names:
+            self.global_sym_table[var_name] = val
+        elif var_name in self.sym_table and isinstance(self.sym_table[var_name], EvalLocalVar):
+            self.sym_table[var_name].set(val)
+        else:
+            self.sym_table[var_name] = val
+
     async def ast_import(self, arg):
         """Execute import."""
         for imp in arg.names:
@@ -985,7 +994,7 @@ class AstEval:
                     mod = await Function.hass.async_add_executor_job(importlib.import_module, imp.name)
                 else:
                     mod = sys.modules[imp.name]
-            self.sym_table[imp.name if imp.asname is None else imp.asname] = mod
+            self.bind_name(imp.name if imp.asname is None else imp.asname, mod)
 
     async def ast_importfrom(self, arg):
         """Execute from X import Y."""
@@ -995,7 +1004,7 @@ class AstEval:
                 mod = await self.global_ctx.module_import(imp.name, arg.level)
                 if not mod:
                     raise ModuleNotFoundError(f"module '{imp.name}' not found")
-                self.sym_table[imp.name if imp.asname is None else imp.asname] = mod
+                self.bind_name(imp.name if imp.asname is None else imp.asname, mod)
             return
         if arg.module == "stubs" or arg.module.startswith("stubs."):
             for imp in arg.names:
@@ -1022,7 +1031,7 @@ class AstEval:
                     if name[0] != "_":
                         self.sym_table[name] = value
             else:
-                self.sym_table[imp.name if imp.asname is None else imp.asname] = getattr(mod, imp.name)
+                self.bind_name(imp.name if imp.asname is None else imp.asname, getattr(mod, imp.name))
 
     async def ast_if(self, arg):
         """Execute if statement."""
@@ -2081,10 +2090,16 @@ class AstEval:
                     for name in await self.get_target_names(target):
                         local_names.add(name)
                         names.add(name)
-            elif cls_name in {"AugAssign", "For", "AsyncFor", "NamedExpr"}:
+            elif cls_name in {"AugAssign", "AnnAssign", "For", "AsyncFor", "NamedExpr"}:
                 for name in await self.get_target_names(arg.target):
                     local_names.add(name)
                     names.add(name)
+            elif cls_name in {"Import", "ImportFrom"}:
+                for imp in arg.names:
+                    if imp.name != "*":
+                        name = imp.asname if imp.asname is not None else imp.name
+                        local_names.add(name)
+                        names.add(name)
             elif cls_name in {"With", "AsyncWith"}:
                 for item in arg.items:
                     if item.optional_vars:
